@@ -551,7 +551,7 @@ func (e *Engine) findIndicesAdaptiveAt(haystack []byte, at int) (int, int, bool)
 
 // findIndicesReverseAnchored searches using reverse DFA - zero alloc.
 func (e *Engine) findIndicesReverseAnchored(haystack []byte) (int, int, bool) {
-	if e.reverseSearcher == nil {
+	if e.reverseSearcher == nil || e.longest {
 		return e.findIndicesNFA(haystack)
 	}
 	atomic.AddUint64(&e.stats.DFASearches, 1)
@@ -564,7 +564,7 @@ func (e *Engine) findIndicesReverseAnchored(haystack []byte) (int, int, bool) {
 
 // findIndicesReverseSuffix searches using reverse suffix optimization - zero alloc.
 func (e *Engine) findIndicesReverseSuffix(haystack []byte) (int, int, bool) {
-	if e.reverseSuffixSearcher == nil {
+	if e.reverseSuffixSearcher == nil || e.longest {
 		return e.findIndicesNFA(haystack)
 	}
 	atomic.AddUint64(&e.stats.DFASearches, 1)
@@ -577,7 +577,7 @@ func (e *Engine) findIndicesReverseSuffix(haystack []byte) (int, int, bool) {
 
 // findIndicesReverseSuffixAt searches using reverse suffix optimization from position - zero alloc.
 func (e *Engine) findIndicesReverseSuffixAt(haystack []byte, at int) (int, int, bool) {
-	if e.reverseSuffixSearcher == nil {
+	if e.reverseSuffixSearcher == nil || e.longest {
 		return e.findIndicesNFAAt(haystack, at)
 	}
 	atomic.AddUint64(&e.stats.DFASearches, 1)
@@ -586,7 +586,7 @@ func (e *Engine) findIndicesReverseSuffixAt(haystack []byte, at int) (int, int, 
 
 // findIndicesReverseSuffixSet searches using reverse suffix SET optimization - zero alloc.
 func (e *Engine) findIndicesReverseSuffixSet(haystack []byte) (int, int, bool) {
-	if e.reverseSuffixSetSearcher == nil {
+	if e.reverseSuffixSetSearcher == nil || e.longest {
 		return e.findIndicesNFA(haystack)
 	}
 	atomic.AddUint64(&e.stats.DFASearches, 1)
@@ -599,7 +599,7 @@ func (e *Engine) findIndicesReverseSuffixSet(haystack []byte) (int, int, bool) {
 
 // findIndicesReverseSuffixSetAt searches using reverse suffix SET optimization from position - zero alloc.
 func (e *Engine) findIndicesReverseSuffixSetAt(haystack []byte, at int) (int, int, bool) {
-	if e.reverseSuffixSetSearcher == nil {
+	if e.reverseSuffixSetSearcher == nil || e.longest {
 		return e.findIndicesNFAAt(haystack, at)
 	}
 	atomic.AddUint64(&e.stats.DFASearches, 1)
@@ -608,7 +608,7 @@ func (e *Engine) findIndicesReverseSuffixSetAt(haystack []byte, at int) (int, in
 
 // findIndicesReverseInner searches using reverse inner optimization - zero alloc.
 func (e *Engine) findIndicesReverseInner(haystack []byte) (int, int, bool) {
-	if e.reverseInnerSearcher == nil {
+	if e.reverseInnerSearcher == nil || e.longest {
 		return e.findIndicesNFA(haystack)
 	}
 	atomic.AddUint64(&e.stats.DFASearches, 1)
@@ -621,7 +621,7 @@ func (e *Engine) findIndicesReverseInner(haystack []byte) (int, int, bool) {
 
 // findIndicesReverseInnerAt searches using reverse inner optimization from position - zero alloc.
 func (e *Engine) findIndicesReverseInnerAt(haystack []byte, at int) (int, int, bool) {
-	if e.reverseInnerSearcher == nil {
+	if e.reverseInnerSearcher == nil || e.longest {
 		return e.findIndicesNFAAt(haystack, at)
 	}
 	atomic.AddUint64(&e.stats.DFASearches, 1)
@@ -630,7 +630,7 @@ func (e *Engine) findIndicesReverseInnerAt(haystack []byte, at int) (int, int, b
 
 // findIndicesMultilineReverseSuffix searches using multiline suffix optimization - zero alloc.
 func (e *Engine) findIndicesMultilineReverseSuffix(haystack []byte) (int, int, bool) {
-	if e.multilineReverseSuffixSearcher == nil {
+	if e.multilineReverseSuffixSearcher == nil || e.longest {
 		return e.findIndicesNFA(haystack)
 	}
 	atomic.AddUint64(&e.stats.DFASearches, 1)
@@ -657,7 +657,7 @@ func (e *Engine) findIndicesAnchoredLiteralAt(haystack []byte, at int) (int, int
 
 // findIndicesMultilineReverseSuffixAt searches using multiline suffix optimization from position - zero alloc.
 func (e *Engine) findIndicesMultilineReverseSuffixAt(haystack []byte, at int) (int, int, bool) {
-	if e.multilineReverseSuffixSearcher == nil {
+	if e.multilineReverseSuffixSearcher == nil || e.longest {
 		return e.findIndicesNFAAt(haystack, at)
 	}
 	atomic.AddUint64(&e.stats.DFASearches, 1)
@@ -1169,6 +1169,12 @@ func (e *Engine) findIndicesAtWithState(haystack []byte, at int, state *SearchSt
 	// Early impossibility check: anchored pattern can only match at position 0
 	if at > 0 && e.nfa.IsAlwaysAnchored() {
 		return -1, -1, false
+	}
+
+	// Longest (POSIX) mode: the specialised searchers take their spans from
+	// leftmost-first automata of their own; the NFA engines honour the mode.
+	if e.longest {
+		return e.findIndicesNFAAtWithState(haystack, at, state)
 	}
 
 	switch e.strategy {
